@@ -19,6 +19,7 @@ import (
 	"verif/mc/props/c14"
 	"verif/mc/props/c15"
 	"verif/mc/props/c16"
+	"verif/mc/props/c19"
 )
 
 type prop struct {
@@ -28,6 +29,7 @@ type prop struct {
 }
 
 var props = map[string]prop{
+	"C19": {"model_checking", c19.Main, func(r *core.Run, mode string, raw []byte) { c19.Replay(r, mode, raw) }},
 	"C11": {"model_checking", c11.Main, func(r *core.Run, mode string, raw []byte) { c11.Replay(r, raw) }},
 	"C12": {"model_checking", c12.Main, func(r *core.Run, mode string, raw []byte) { c12.Replay(r, raw) }},
 	"C01": {"model_checking", c01.Main, func(r *core.Run, mode string, raw []byte) { c01.Replay(r, mode, raw) }},
@@ -48,6 +50,10 @@ func main() {
 		os.Exit(2)
 	}
 	id := os.Args[1]
+	if id == "C19-worker" {
+		c19.Worker(os.Args[2])
+		return
+	}
 	p, ok := props[id]
 	if !ok {
 		fmt.Fprintf(os.Stderr, "unknown property %s\n", id)
